@@ -1,0 +1,11 @@
+//go:build verif
+
+package method_evaluator
+
+import "ti/base"
+
+// VerifPrioritizeArgTs exposes prioritizeArgTs (positional arguments first, keyword arguments sorted by key).
+func VerifPrioritizeArgTs(argTs []*base.T) []*base.T { return prioritizeArgTs(argTs) }
+
+// VerifPrioritizeDefineArgNames exposes prioritizeDefineArgNames.
+func VerifPrioritizeDefineArgNames(names []string) []string { return prioritizeDefineArgNames(names) }
